@@ -175,6 +175,7 @@ struct Pipe {
 	appending: u32,
 	unread: u32,
 	dirty: u32,
+	reindex_bias: bool,
 }
 
 impl Pipe {
@@ -199,14 +200,15 @@ impl Pipe {
 				},
 			Op::Step(Stage::EnactOne) => {},
 			Op::Step(Stage::Clean) => self.dirty = 0,
-			Op::Restart | Op::Drain | Op::Crash { .. } | Op::LogFuzz { .. } | Op::IoErr { .. } => *self = Pipe::default(),
+			Op::Restart | Op::Drain | Op::Crash { .. } | Op::LogFuzz { .. } | Op::IoErr { .. } =>
+				*self = Pipe { reindex_bias: self.reindex_bias, ..Pipe::default() },
 			_ => {},
 		}
 	}
 	fn pick_stage(&self, r: &mut Rng) -> Stage {
 		let w = [
 			if self.queued > 0 { 40 } else { 4 },
-			6,
+			if self.reindex_bias { 22 } else { 6 },
 			if self.appending > 0 { 25 } else { 3 },
 			if self.unread > 0 { 14 } else { 2 },
 			if self.unread > 0 { 16 } else { 2 },
@@ -328,6 +330,27 @@ pub fn gen(scenario: &str, tier: Tier, seed: u64) -> (RunCfg, Vec<Op>) {
 
 fn gen_tx(r: &mut Rng, cfg: &RunCfg, big_max: u32, tree_state: &mut crate::gen2::TreeGen) -> Vec<(u8, TxOp)> {
 	let ncols = cfg.cols.len();
+	if cfg.scenario == "reindex" && r.chance(2, 5) {
+		// bulk insert into the collision group so that one index page overflows
+		let ucols: Vec<u8> =
+			(0..ncols).filter(|c| cfg.cols[*c].kind == ColKind::HashUniform).map(|c| c as u8).collect();
+		if !ucols.is_empty() {
+			let c = *r.pick(&ucols);
+			let n = cfg.cols[c as usize].keys.len();
+			let count = r.range(8, 90) as usize;
+			let start = r.below(n as u64) as usize;
+			let mut tx = Vec::new();
+			for i in 0..std::cmp::min(count, n) {
+				let k = (start + i) % n;
+				if r.chance(1, 12) {
+					tx.push((c, TxOp::Del(k)));
+				} else {
+					tx.push((c, TxOp::Set(k, ValSpec { len: r.range(0, 60) as u32, seed: r.next(), compressible: false })));
+				}
+			}
+			return tx
+		}
+	}
 	let nops = match r.below(20) {
 		0 => 0,
 		1..=9 => r.range(1, 3),
@@ -406,7 +429,8 @@ fn gen_ops(r: &mut Rng, cfg: &RunCfg, tier: Tier, big_max: u32) -> Vec<Op> {
 			w.drain = 6;
 			w.crash = 3;
 		},
-		"rc" | "reindex" => w.crash = 2,
+		"rc" => w.crash = 2,
+		"reindex" => w.crash = 5,
 		"logfuzz" => w.logfuzz = 6,
 		"ioerr" => w.ioerr = 8,
 		"reject" => w.reject = 10,
@@ -414,7 +438,7 @@ fn gen_ops(r: &mut Rng, cfg: &RunCfg, tier: Tier, big_max: u32) -> Vec<Op> {
 		"admin" => w.admin = 6,
 		_ => {},
 	}
-	let mut pipe = Pipe::default();
+	let mut pipe = Pipe { reindex_bias: scenario == "reindex", ..Pipe::default() };
 	let mut ops = Vec::new();
 	let mut tree_state = crate::gen2::TreeGen::new(cfg);
 	let mut crashes = 0;
@@ -433,6 +457,7 @@ fn gen_ops(r: &mut Rng, cfg: &RunCfg, tier: Tier, big_max: u32) -> Vec<Op> {
 				}
 				crashes += 1;
 				let inner = match r.below(20) {
+					0..=4 if scenario == "reindex" => Op::Step(*r.pick(&[Stage::ProcessReindex, Stage::EnactAll, Stage::EnactOne, Stage::Clean])),
 					0..=13 => Op::Step(pipe.pick_stage(r)),
 					14..=15 => Op::Restart,
 					16..=17 => Op::Drain,
@@ -505,7 +530,7 @@ pub fn gen_valid_tx(r: &mut Rng, cfg: &RunCfg, big_max: u32, ts: &mut crate::gen
 }
 
 pub fn pick_stage_for(r: &mut Rng, queued: u32, appending: u32, unread: u32, dirty: u32) -> Stage {
-	Pipe { queued, appending, unread, dirty }.pick_stage(r)
+	Pipe { queued, appending, unread, dirty, reindex_bias: false }.pick_stage(r)
 }
 
 pub struct PipeView {
